@@ -43,3 +43,12 @@ package zebra
 //@ func (*interfaceUpdateBody).decodeFromBytes
 //@   requires len(data) <= 65535
 //@   claims bounds div0 make
+
+// NEXTHOP_REGISTER entries are written where the decoder (and zebra's zread_rnh_register) reads them: connected,
+// for FRR >= 8.2 resolve-via-default and the SAFI, then family, prefix length and prefix; pos is the offset of
+// the family field (1 or 4)
+//@ func (*RegisteredNexthop).serialize
+//@   requires n != nil
+//@   claims at-return
+//@   at-return requires ret1 == nil ==> len(ret0) >= pos + 3 && ret0[0] == n.connected && int(ret0[pos])*256 + int(ret0[pos+1]) == int(n.Family) && int(ret0[pos+2]) == 8*addrByteLen
+//@   at-return requires ret1 == nil && pos == 4 ==> ret0[1] == n.resolveViaDef && int(ret0[2])*256 + int(ret0[3]) == int(SafiUnicast)
